@@ -179,3 +179,5 @@ META = {
     "assumptions": ["the independent renderer ir_to_typing implements the documented style rules (actual types under pydantic/sqlmodel, no Literal under attrs, Literal iff fewer than max_literals)",
                     "base output has no defaults by design (bare annotations)"],
 }
+if isinstance(META.get("bounds"), dict) and "quick" in META["bounds"]:
+    META["bounds"]["quick"] += '; a second emission from the same registry under another framework / literal limit (24 keys x 3 templates x 5 x 3)'
